@@ -6,6 +6,11 @@ decompressor function), every byte string, every way of cutting it into reads/wr
 truncation point (a truncated body is just another byte string).
 -/
 import ConfModel.Lemmas.DataTracer
+import ConfModel.Lemmas.DataTracerSeg
+import ConfModel.Lemmas.DataTracerW
+import ConfModel.Lemmas.EnvelopeEncode
+import ConfModel.Lemmas.CallerBuf
+import ConfModel.Generated.C14Facts
 namespace ConfModel.Props.C14
 open ConfModel.DataTracer ConfModel.Envelopes
 
@@ -169,5 +174,159 @@ example : itemEvents ⟨false, true, fun _ => some [1]⟩ ⟨⟨2, 1⟩, [9]⟩ 
 
 example : itemEvents ⟨false, true, fun _ => some [1]⟩ ⟨⟨3, 1⟩, [9]⟩ = [Ev.data (some ⟨3, 1⟩) 1, Ev.endStream [1]] := by
   decide
+
+/-! ### the counters at their real widths: nothing wraps -/
+
+/-- The widths the fixed-width machine (`Model/DataTracerW.lean`: `expecting : UInt32`,
+`actual : UInt64`, event length `uint64`) is written for are those of the Go fields, read off the
+compiled struct and event types on every run (`Generated/C14Facts.lean`). -/
+theorem width_facts :
+    Generated.C14Facts.expectingBits = expectingBits ∧ Generated.C14Facts.actualBits = actualBits ∧
+    Generated.C14Facts.envLenBits = envLenBits ∧ Generated.C14Facts.reqDataLenBits = dataLenBits ∧
+    Generated.C14Facts.respDataLenBits = dataLenBits ∧
+    (Generated.C14Facts.expectingSigned || Generated.C14Facts.actualSigned || Generated.C14Facts.envLenSigned ||
+      Generated.C14Facts.reqDataLenSigned || Generated.C14Facts.respDataLenSigned) = false ∧
+    UInt32.size = 2 ^ expectingBits ∧ UInt64.size = 2 ^ actualBits := by decide
+
+/-- The fixed-width machine simulates the `Nat` machine call by call: from the initial state, over
+any chunks — for a body that is not an envelope stream as long as its total stays below 2^64 —,
+states correspond (`StW.abs`) and the same events are emitted.  In an envelope stream no
+hypothesis on sizes is needed at all: `actual < expecting < 2^32` on every reachable state. -/
+theorem widths_simulate (c : Cfg) (chunks : List Bytes)
+    (h : c.isStream = false → chunks.flatten.length < 2 ^ 64) :
+    ((feedAllW c initW chunks).1.abs, (feedAllW c initW chunks).2) = feedAll c init chunks := by
+  have := feedAllW_sim c chunks initW (fun _ => inv_init) (fun hs => by
+    have := h hs; simpa [initW] using this)
+  rw [this, abs_initW]
+
+/-- **No counter wraps**: for every configuration and every way of cutting a body of fewer than
+2^64 bytes into calls, the machine with Go's `uint32` / `uint64` arithmetic reports exactly the
+specified events — in particular a body that is not an envelope stream is reported with its exact
+byte count, also beyond 2^32. -/
+theorem widths_no_wrap (c : Cfg) (chunks : List Bytes) (h : chunks.flatten.length < 2 ^ 64) :
+    eventsW c chunks = specEvents c chunks.flatten := by
+  have hsim := widths_simulate c chunks (fun _ => h)
+  have h1 := congrArg Prod.fst hsim; have h2 := congrArg Prod.snd hsim
+  simp only at h1 h2
+  have hp : (feedAllW c initW chunks).1.pfx.length < 2 ^ 64 := by
+    have : (feedAllW c initW chunks).1.pfx = (feedAll c init chunks).1.pfx := by rw [← h1]; rfl
+    rw [this]
+    cases hs : c.isStream
+    · rw [feedAll_count c hs]; simp [init]
+    · have := (inv_reachable c chunks hs).1; omega
+  unfold eventsW
+  rw [unfinishedW_sim _ hp, h1, h2, chunk_independent]
+  unfold specEvents
+  cases hs : c.isStream
+  · simp [feed, hs, unfinished, init, countEvents]
+  · simp only [feed, hs, if_true]
+    exact run_init_spec c chunks.flatten
+
+example : eventsW ⟨true, false, some⟩ [[1, 2], [3]] = [Ev.data none 3] := by decide
+
+/-- why the width of `actual` matters: a 32-bit running total reports a body of 4 GiB + 12345
+bytes as 12345 bytes (and one of exactly 4 GiB as empty) -/
+theorem narrow_total_wraps :
+    (UInt32.ofNat (2 ^ 32 + 12345)).toNat = 12345 ∧ (UInt32.ofNat (2 ^ 32)).toNat = 0 ∧
+    (UInt64.ofNat (2 ^ 32 + 12345)).toNat = 2 ^ 32 + 12345 := by decide
+
+/-! ### bodies given by segments (what the driver runs on bodies of 4 GiB and more) -/
+
+/-- running the wrapper on segments is running it on their bytes -/
+theorem seg_run_eq_bytes (c : Cfg) (ops : List SOp) : observeS c ops = observe c (ops.map SOp.toOp) := by
+  unfold observeS observe
+  rw [wrunS_eq c ops winit (winv_init c)]
+
+/-- hence the trace of a body fed as segments is the specified trace of the segments' bytes -/
+theorem seg_trace_eq_spec (c : Cfg) (segs : List Seg) (err : EndErr) :
+    observeS c (segs.map SOp.seg ++ [SOp.fin err]) = specTrace c (segs.map Seg.bytes).flatten err := by
+  rw [seg_run_eq_bytes, ← trace_eq_spec]
+  simp [SOp.toOp, Function.comp_def]
+
+example : observeS ⟨true, true, some⟩ ([Seg.lit [0, 0, 0, 0, 7], Seg.fill 3, Seg.fill 4, Seg.fill 2].map SOp.seg ++ [SOp.fin .nil]) =
+    [.data (some ⟨0, 7⟩) 7 0, .data none 2 1, .bodyEnd .nil] := by decide
+
+/-- a body that is not an envelope stream: one data event with the exact total of the calls'
+lengths, whatever its size -/
+theorem non_stream_total (c : Cfg) (hs : c.isStream = false) (segs : List Seg) (err : EndErr) :
+    observeS c (segs.map SOp.seg ++ [SOp.fin err]) =
+      numberEvs 0 (countEvents (segs.map Seg.length).sum) ++ [NEv.bodyEnd err] := by
+  rw [seg_trace_eq_spec]
+  have : (segs.map Seg.bytes).flatten.length = (segs.map Seg.length).sum := by
+    rw [List.length_flatten, List.map_map]
+    congr 1
+    apply List.map_congr_left
+    intro g _; exact seg_bytes_length g
+  simp [specTrace, specEvents, hs, this]
+
+example : observeS ⟨false, false, some⟩ ([Seg.fill (2 ^ 32), Seg.lit [1], Seg.fill (2 ^ 33)].map SOp.seg ++ [SOp.fin .inner]) =
+    [.data none (2 ^ 32 + 1 + 2 ^ 33) 0, .bodyEnd .inner] := by
+  rw [non_stream_total _ rfl]; decide
+
+/-! ### the specification on a body given by its structure -/
+
+/-- `parse` inverts the envelope encoding: complete messages (any flags, any declared length
+below 2^32 with a payload of that length) followed by anything parse as those messages followed
+by the parse of the rest -/
+theorem parse_encode (items : List Item) (hw : ∀ it ∈ items, it.wf) (rest : Bytes) :
+    parse (encode items ++ rest) = (items ++ (parse rest).1, (parse rest).2) :=
+  parse_encode_append items hw rest
+
+/-- The specified events of an envelope stream, read off its structure: one data event per
+message, then nothing (clean end), the count of 1..4 stray prefix bytes, or the count of payload
+bytes seen of a message whose payload is cut. -/
+theorem spec_of_envelopes (c : Cfg) (hs : c.isStream = true) (items : List Item) (hw : ∀ it ∈ items, it.wf) :
+    specEvents c (encode items) = items.flatMap (itemEvents c) ∧
+    (∀ t : Bytes, 0 < t.length → t.length < 5 →
+      specEvents c (encode items ++ t) = items.flatMap (itemEvents c) ++ tailEvents (.partialPrefix t.length)) ∧
+    (∀ (e : Env) (p : Bytes), e.len < 2 ^ 32 → p.length < e.len →
+      specEvents c (encode items ++ (prefixOf e ++ p)) =
+        items.flatMap (itemEvents c) ++ tailEvents (.partialPayload e p.length)) := by
+  refine ⟨?_, ?_, ?_⟩
+  · have := parse_encode items hw []
+    simp only [List.append_nil, parse_nil] at this
+    simp [specEvents, hs, eventsOf, this, tailEvents]
+  · intro t h0 h5
+    simp [specEvents, hs, eventsOf, parse_encode items hw t, parse_short t h0 h5]
+  · intro e p hlt hp
+    simp [specEvents, hs, eventsOf, parse_encode items hw (prefixOf e ++ p), parse_partial e hlt p hp]
+
+example : specEvents ⟨false, true, some⟩ (encode [⟨⟨0, 2⟩, [7, 7]⟩, ⟨⟨2, 1⟩, [9]⟩] ++ (prefixOf ⟨1, 300⟩ ++ [5, 5, 5])) =
+    [Ev.data (some ⟨0, 2⟩) 2, Ev.data (some ⟨2, 1⟩) 1, Ev.endStream [9], Ev.data (some ⟨1, 300⟩) 3] := by decide
+
+/-- the payload of a message enters the specification only for an end-stream message on the
+response side (so the structure need not carry the others) -/
+theorem payload_irrelevant (c : Cfg) (e : Env) (p q : Bytes)
+    (h : (!c.isRequest && isEndFlag e.flags && e.len != 0) = false) :
+    itemEvents c ⟨e, p⟩ = itemEvents c ⟨e, q⟩ :=
+  itemEvents_payload_irrel c e p q h
+
+example : itemEvents ⟨true, true, some⟩ ⟨⟨2, 3⟩, [1, 2, 3]⟩ = itemEvents ⟨true, true, some⟩ ⟨⟨2, 3⟩, []⟩ := by decide
+
+/-! ### a caller that reuses one array for all its calls -/
+
+open ConfModel.CallerBuf in
+/-- **Chunk values suffice.**  A caller that reuses one array — overwriting it arbitrarily
+between calls (`before`), handing the wrapper a window at any offset — makes the tracer see the
+same thing as a caller with a fresh slice per call: the trace depends on the *values* in the
+windows only, i.e. on the chunks.  (This is the contract the code must keep — copy what it
+remembers — and what the harness observes by running every session in the reusing discipline.) -/
+theorem reused_buffer_values_suffice (c : Cfg) (calls : List BCall) (hf : ∀ b ∈ calls, b.fits) (err : EndErr) :
+    observe c ((calls.map BCall.window).map Op.data ++ [Op.fin err]) =
+      specTrace c (calls.map BCall.chunk).flatten err := by
+  rw [windows_eq_chunks calls hf, trace_eq_spec]
+
+open ConfModel.CallerBuf in
+/-- … and the caller finds in its whole array — in front of the window, in it, beyond `n`, in the
+capacity region — exactly what the inner reader / it itself had put there -/
+theorem caller_array_untouched (b : BCall) (h : b.fits) :
+    b.callerSees = b.before.take b.off ++ b.chunk ++ b.before.drop (b.off + b.chunk.length) ∧
+    b.callerSees.length = b.before.length :=
+  ⟨rfl, array_length b h⟩
+
+open ConfModel.CallerBuf in
+example : (⟨[9, 9, 9, 9, 9, 9], 1, [0, 0, 5]⟩ : BCall).fits ∧
+    (⟨[9, 9, 9, 9, 9, 9], 1, [0, 0, 5]⟩ : BCall).window = [0, 0, 5] ∧
+    (⟨[9, 9, 9, 9, 9, 9], 1, [0, 0, 5]⟩ : BCall).callerSees = [9, 0, 0, 5, 9, 9] := by decide
 
 end ConfModel.Props.C14
